@@ -26,10 +26,20 @@ inline std::vector<double> tridiagRhs(int n, int kind, uint64_t seed, int which)
         case 2:
             b[i] = r.normal() * std::pow(10.0, r.uni(-8, 8));
             break; // huge dynamic range
-        default:
+        case 3:
             b[i] = 1.0 + 0.1 * which;
             break; // constant
+        default:
+            b[i] = r.normal();
+            break; // kinds >= 4: normal, globally rescaled below
         }
+    }
+    // the solve is homogeneous in b: globally tiny (1e-18..1e-6) or huge (1e6..1e12) right-hand sides, kinds 4 and 5
+    if (kind == 4 || kind == 5) {
+        Rnd q(seed * 31 + 5);
+        const double sc = std::pow(10.0, kind == 4 ? q.uni(-18, -6) : q.uni(6, 12));
+        for (int i = 0; i < n; i++)
+            b[i] *= sc;
     }
     return b;
 }
@@ -344,7 +354,7 @@ inline KV genTridiagCase()
     c.putVD("sub", sub);
     c.putD("corner", corner);
     c.putI("nrhs", rint(1, 4));
-    c.putI("rhs_kind", rint(0, 3));
+    c.putI("rhs_kind", rint(0, 5));
     c.putU("rhs_seed", rseed());
     return c;
 }
